@@ -3121,3 +3121,33 @@ func init() {
 	})
 	addDoc("C10", "R10r (= C06 R06a) column text is conveyed from the current row/line only.")
 }
+
+func init() {
+	wrapRun("C11", func(c *core.Ctx) {
+		// the tree the navigator walks must be the document's: pooled nodes blank (= C12 R12b: a recycled root with stale
+		// sibling links, seed C11-13), reader state per instance (= instance isolation R04j: a namespace table shared by all
+		// readers, seed C11-14), every character-data token attached (= C08 R08e: empty CDATA dropped, seed C11-15)
+		if c.CountRule("R11h") == 0 {
+			importRules(c, "C12", map[string]string{"R12b": "R11h"})
+			c.Floor("R11h", 5, "reset clears every field")
+		}
+		if c.CountRule("R11i") == 0 {
+			importRules(c, "C04", map[string]string{"R04j": "R11i"})
+			c.Floor("R11i", 3, "instance isolation of the stream readers")
+		}
+		if c.CountRule("R11j") == 0 {
+			importRules(c, "C08", map[string]string{"R08e": "R11j"})
+			c.Floor("R11j", 1, "character data reaches text-node creation unconditionally")
+		}
+	})
+	wrapRun("C15", func(c *core.Ctx) {
+		// R15p (= C14 R14c): compiled expressions shared through the process-wide cache are only used through entry points
+		// that clone the query; evaluating the shared object itself leaves position state behind (seed C15-15)
+		if c.CountRule("R15p") == 0 {
+			importRules(c, "C14", map[string]string{"R14c": "R15p"})
+			c.Floor("R15p", 1, "uses of cached *xpath.Expr")
+		}
+	})
+	addDoc("C11", "R11h (= C12 R12b) pooled nodes are blank. R11i (= R04j) instance isolation of the readers. R11j (= C08 R08e) every CharData token is attached.")
+	addDoc("C15", "R15p (= C14 R14c) shared compiled expressions are used through cloning entry points only.")
+}
